@@ -28,7 +28,8 @@ ASSUMPTIONS = [
     "tasks accepted while a stop() is in progress carry no obligation",
     "yield points: simulated synchronisation operations (+ source lines of threadpool.py when enabled); timeouts fire at quiescent moments only",
 ]
-EXHAUSTIVE = ["schedules with <= 2 non-default choices of the tiny programs of sub-check 'dfs' (programs whose enumeration hit the per-program limit are reported as truncated)"]
+EXHAUSTIVE = ["schedules with <= 2 non-default choices of the tiny programs of sub-check 'dfs' (programs whose enumeration hit the per-program limit are reported as truncated)",
+              "schedules with one preemption at the first occurrence (thorough: first two) of every distinct traced line, for the staged programs of sub-check 'sweep'"]
 
 
 def oracle(case):
@@ -102,6 +103,48 @@ def make_dfs_oracle(prefix):
     return dfs_oracle
 
 
+# -- staged programs: the controller waits for a result, so its next operation meets the
+# worker on its way back to the queue; one preemption at every distinct source line
+STAGED = [
+    {"mx": 1, "mn": 0, "timeout": 60, "main": [("start",), ("enq", "ret"), ("wait", 0, 1000.0), ("enq", "ret"), ("wait", 1, 1000.0), ("join",)], "others": []},
+    {"mx": 2, "mn": 0, "timeout": 60, "main": [("start",), ("enq", "ret"), ("wait", 0, 1000.0), ("enq", ("dep", 0, None)), ("enq", ("dep", None, 0)), ("join",)], "others": []},
+    {"mx": 1, "mn": 1, "timeout": 60, "main": [("start",), ("enq", "raise"), ("wait", 0, 1000.0), ("stop",), ("enq", "ret"), ("start",), ("join",)], "others": []},
+    {"mx": 2, "mn": 1, "timeout": 5, "main": [("start",), ("enq", "gate"), ("joint", 0.5), ("enq", "ret"), ("wait", 1, 1000.0), ("stop",)], "others": []},
+    {"mx": 1, "mn": 0, "timeout": 60, "main": [("enq", "ret"), ("start",), ("wait", 0, 1000.0), ("enq", "ret"), ("stop",), ("start",), ("enq", "partial-raise"), ("join",)], "others": []},
+    {"mx": 2, "mn": 0, "timeout": 60, "main": [("start",), ("enq", "ret"), ("wait", 0, 1000.0), ("join",)], "others": [[("enq", "ret"), ("enq", "ret")]]},
+]
+
+
+def sweep_cases(tier):
+    for i in range(len(STAGED)):
+        yield {"program": i, "occurrences": 1 if tier == "quick" else 2}
+
+
+def make_sweep_oracle(prefix):
+    def sweep_oracle(case):
+        prog = STAGED[case["program"]]
+        policy = (False, True)
+        infos = []
+        n = 0
+
+        def run_once(chooser):
+            return P.run_program(prog, chooser, True, policy)
+
+        nthreads = 2 + prog["mx"] + len(prog["others"])
+        for pre, run, ch in D.single_preemption_sweep(run_once, max_points=4000, occurrences=case["occurrences"], threads=min(nthreads, 3)):
+            n += 1
+            for v in run.problems:
+                if v.signature.split("/")[0] in prefix:
+                    v.replay_case = {"prog": prog, "sched": ("preempt", [list(pre[:2])] if pre else [], 0), "lines": True, "policy": policy}
+                    v.replay_sub = "random"
+                    raise v
+            infos.append(Info(nt=pre is not None, classes=["sweep", "program:%d" % case["program"]], key=(case["program"], pre[:2] if pre else None),
+                              sample={"prog": prog, "preempt-at": list(pre) if pre else None}))
+        infos.append(Info(classes=["sweep-complete"], key=("sweep", case["program"], case["occurrences"]), sample={"program": case["program"], "schedules": n}))
+        return Info(multi=infos)
+    return sweep_oracle
+
+
 SUBS = [
     Sub("random", oracle, strategy=lambda tier: P.cases(),
         budget={"quick": 9000, "thorough": 200000}, shards={"quick": 16, "thorough": 16},
@@ -110,6 +153,9 @@ SUBS = [
     Sub("dfs", make_dfs_oracle(PREFIX), enumerate=dfs_cases, shards={"quick": 8, "thorough": 8},
         time_cap={"quick": 100, "thorough": 1500},
         what="bounded-exhaustive schedules of tiny pool programs"),
+    Sub("sweep", make_sweep_oracle(PREFIX), enumerate=sweep_cases, shards={"quick": 6, "thorough": 6},
+        time_cap={"quick": 100, "thorough": 1500},
+        what="staged pool programs: every schedule with one preemption at a distinct source line of threadpool.py"),
 ]
 
 CLAIM = {
